@@ -1174,7 +1174,7 @@ def build_case(seed, idx, budget, mutant=None):
         if u.sort == "type":
             tc = {}
             for b in model.bindings:
-                if b.name == u.name and b.ty is not None:
+                if b.name == u.name and b.ty is not None and relation(b, u) != "other_function":
                     tc.setdefault(b.ty, []).append(f"{b.kind}:{relation(b, u)}")
             if u.name in TBUILTIN:
                 tc.setdefault(u.name, []).append("builtin")
